@@ -104,7 +104,25 @@ def check_case(rules, rng, late=False):
             c['_texts'] = texts
             c['_late'] = True
         else:
-            e = ev.make_enforcer(texts, dflt, via=rng.choice(['rules_obj', 'dict']))
+            # names that are referenced but not defined may be *registered* as defaults on this enforcer, which
+            # never loads (use_conf off): a registered default that is not part of the rule set defines nothing
+            reg = []
+            if rng.random() < 0.35:
+                refs = set()
+
+                def walk(t):
+                    if t['k'] == 'rule':
+                        refs.add(t['name'])
+                    for kk in ('a',):
+                        if kk in t:
+                            walk(t[kk])
+                    for kid in t.get('as', []):
+                        walk(kid)
+                for _, t in rules:
+                    walk(t)
+                reg = [(n, [], rng.choice(['role:r', '@', '!'])) for n in sorted(refs - set(texts))]
+                c['_registered_not_merged'] = [r[0] for r in reg]
+            e = ev.make_enforcer(texts, dflt, registered=reg, via=rng.choice(['rules_obj', 'dict', 'ctor']))
         c['ok'] = 1 if e.check_rules() else 0
         try:
             e.check_rules(raise_on_violation=True)
@@ -277,7 +295,7 @@ def run(ctx):
         else:
             key = 'validator:rc=%s' % c['rc']
         ctx.violation(key, 'rule-set validation differs from "reports exactly undefined or cycle-reaching references"',
-                      {k: c.get(k) for k in ('_texts', 'ok', 'raised', 'terminated', 'rc', 'missing', 'unknown', 'unparseable', '_exc', 'kind')})
+                      {k: c.get(k) for k in ('_texts', 'ok', 'raised', 'terminated', 'rc', 'missing', 'unknown', 'unparseable', '_exc', 'kind', '_registered_not_merged')})
     ctx.exhaustive = not q
     ctx.cover.update({'enumerated_graphs': n_enum, 'of_total': len(combos), 'random_graphs': n_check - n_enum, 'validator_runs': len(cases) - n_check,
                       'clean_graphs': sum(1 for c in cases if c.get('ok') == 1)})
